@@ -265,7 +265,8 @@ def reject_worker(job):
 # ------------------------------------------------------------------------------------------
 # (b) totality
 
-ARBITRARY = ["", " ", "é", "日本", "🙂", "%", "\\", "%é", "\\é", "\\12é", "[", "[[.]", "[[:", "a[[=]", "*****", "99999999999999999999999999", "-1", "+-5",
+ARBITRARY = ["", " ", "é", "日本", "🙂", "%", "\\", "%é", "\\é", "\\12é", "[", "[[.]", "[[:", "a[[=]", "*****", "[[:alpha:", "[[=a=", "*[[.a.", "[[::", "[[:a:é]",
+             "[[.é.", "[[:é", "[[=é=]", "[[:alpha:]é", "[a[:", "[[:]:", "99999999999999999999999999", "-1", "+-5",
              "0x10", "{}", ";", "+", "(", ")", "!", ",", "-", "--", "a" * 300, "\n", "%p%", "%A", "%T", "%Ca", "%-", "%5", "%.3p", "\\0", "\\777", "\\400",
              "\\c", "\\x", "%99999999999999999999p", "%0", "[a-", "[!", "(a", "a)", "a\\{1", "a{1", "\\(", "[[:alpha:]", "**", "a{2,1}", "a\\{2,1\\}",
              "\\", "\\\\", "[]", "[]]", "[^]", "[\\]", "*[", "?\\", "%%%", "%5%", "%-5", "% p", "%#p", "%+p", "%010p", "\\1", "\\18", "\\08x", "%Z", "%z",
